@@ -54,6 +54,7 @@ class Universe:
         self._envs = {}
         self.derived_construction = set()
         self._derive_construction()
+        self._derive_callable_objects()
 
     def _derive_construction(self):
         """Helpers that construction-time code was split into: a function
@@ -125,6 +126,67 @@ class Universe:
                         for c in callers):
                     self.derived_construction.add(f.key)
                     changed = True
+
+    def _derive_callable_objects(self):
+        """A private class every instance of which is made in a
+        construction-time function, bound to a local there and only used as
+        a receiver, called, or returned (never stored or passed on) is what
+        a nested function of that function would be: its methods run when
+        the construction-time function, or the host holding its result,
+        says so."""
+        for mod in self.repo.modules.values():
+            for ci in mod.classes.values():
+                nm = ci.node.name
+                if not nm.startswith('_') or ci.node not in mod.tree.body:
+                    continue
+                refs = [n for n in ast.walk(mod.tree)
+                        if isinstance(n, ast.Name) and n.id == nm and
+                        isinstance(n.ctx, ast.Load)]
+                if not refs:
+                    continue
+                ok = True
+                for r in refs:
+                    call = getattr(r, '_parent', None)
+                    if not (isinstance(call, ast.Call) and call.func is r):
+                        ok = False
+                        break
+                    f = model.enclosing(call, (ast.FunctionDef,
+                                               ast.AsyncFunctionDef))
+                    fi = next((x for x in mod.functions.values()
+                               if x.node is f), None)
+                    if fi is None or self.role(fi) not in (
+                            'construction', 'register'):
+                        ok = False
+                        break
+                    asg = getattr(call, '_parent', None)
+                    if isinstance(asg, ast.Return):
+                        continue
+                    if not (isinstance(asg, ast.Assign) and len(
+                            asg.targets) == 1 and isinstance(
+                            asg.targets[0], ast.Name)):
+                        ok = False
+                        break
+                    local = asg.targets[0].id
+                    for x in ast.walk(f):
+                        if not (isinstance(x, ast.Name) and x.id == local):
+                            continue
+                        if isinstance(x.ctx, ast.Store):
+                            if x is not asg.targets[0]:
+                                ok = False
+                            continue
+                        p = getattr(x, '_parent', None)
+                        if not ((isinstance(p, ast.Attribute) and
+                                 p.value is x) or
+                                (isinstance(p, ast.Call) and p.func is x) or
+                                isinstance(p, ast.Return)) or \
+                                model.enclosing(x, (
+                                    ast.FunctionDef, ast.AsyncFunctionDef,
+                                    ast.Lambda)) is not f:
+                            ok = False
+                if ok:
+                    for m in ci.methods.values():
+                        if m.key not in self.payload_ov:
+                            self.derived_construction.add(m.key)
 
     @staticmethod
     def _import_time(node):
